@@ -116,6 +116,9 @@ def generate_anomalous_data(
 
     means = [np.asarray(mean).reshape(-1) for mean in means]
     variances = [np.asarray(variance).reshape(-1) for variance in variances]
+    # The number of variables, read before a single mean is repeated per anomaly:
+    # an empty list of anomalies leaves no mean to read it from afterwards.
+    p = len(means[0]) if len(means) > 0 else 1
 
     if len(means) == 1:
         means = means * len(anomalies)
@@ -131,7 +134,6 @@ def generate_anomalous_data(
     if any([anomaly[0] < 0 or anomaly[1] > n for anomaly in anomalies]):
         raise ValueError("Anomalies must be within the range of the data.")
 
-    p = len(means[0])
     x = multivariate_normal.rvs(np.zeros(p), np.eye(p), n, random_state).reshape(n, p)
     for anomaly, mean, variance in zip(anomalies, means, variances):
         start, end = anomaly
